@@ -1,0 +1,25 @@
+//go:build verif && (verif_all || verif_c20)
+// +build verif
+// +build verif_all verif_c20
+
+package gocql
+
+// Verification hooks (build tag `verif`) for C20, third file (several connections of ONE session: pool connections
+// through the shared connection config, control-connection dials through the control connection's copy of it). Add-only.
+
+import (
+	"context"
+	"net"
+)
+
+// ControlDial opens (and closes again) ONE connection to a host the way the session's control connection does when
+// it discovers the protocol version (controlConn.discoverProtocol: a COPY of the session's connection config is
+// made at that moment, the host is dialled through Session.dial with that copy). The error is discoverProtocol's.
+func (v *VerifSess) ControlDial(hostname string, ip net.IP, port int) error {
+	if v.s.ctx == nil {
+		v.s.ctx, v.s.cancel = context.WithCancel(context.Background())
+	}
+	host := &HostInfo{hostname: hostname, connectAddress: ip, port: port}
+	_, err := createControlConn(v.s).discoverProtocol([]*HostInfo{host})
+	return err
+}
